@@ -312,6 +312,22 @@ func (c *Comparer) field(v reflect.Value, n *Node, fi int, f Field, path string)
 		if len(got) != len(want) || strings.Join(got, "\x00") != strings.Join(want, "\x00") {
 			c.add(fp, "value", "user-implemented captures saw %q, want %q", got, want)
 		}
+	case FParsN:
+		var want []string
+		for _, e := range evs {
+			want = e.Vals // scalar: the last accepted match
+		}
+		var got []string
+		if !fv.IsNil() {
+			if in := fv.Elem().Field(0); !in.IsNil() {
+				got = []string{in.Elem().Field(0).String(), in.Elem().Field(1).String()}
+			} else {
+				got = []string{"<embedded parser returned no node>"}
+			}
+		}
+		if strings.Join(got, "\x00") != strings.Join(want, "\x00") || len(got) != len(want) {
+			c.add(fp, "value", "the embedded parser's node holds %q, want %q", got, want)
+		}
 	case FPars, FParsV, FParss, FCust, FCusts, FParsR:
 		var want []string
 		for _, e := range evs {
@@ -565,6 +581,21 @@ func (c *Comparer) Leaks(v reflect.Value, n *Node, uni int, path string) {
 			}
 			if !subseq(got, vals) && !(f.Kind == FCust && len(got) == 1 && contains(vals, got[0])) {
 				c.add(fp, "leak", "%q holds custom productions that are not on the accepted path %q", got, vals)
+			}
+		case FParsN:
+			if fv.IsNil() || fv.Elem().Field(0).IsNil() {
+				continue
+			}
+			in := fv.Elem().Field(0).Elem()
+			got := []string{in.Field(0).String(), in.Field(1).String()}
+			ok := false
+			for _, e := range evs {
+				if strings.Join(e.Vals, "\x00") == strings.Join(got, "\x00") {
+					ok = true
+				}
+			}
+			if !ok {
+				c.add(fp, "leak", "the embedded parser's node %q is not on the accepted path", got)
 			}
 		case FPars, FParsV, FParss, FParsR:
 			var vals []string
